@@ -16,7 +16,7 @@ import ast
 
 from ..loader import dotted, norm
 from ..markup import K, MarkupDomain, OBJ, TAINTED
-from ..paths import Walker, truth
+from ..paths import Const, Walker, truth
 from ..prov import Engine
 from ..strlang import accepts, path_constraints
 from ..structure import parents
@@ -208,7 +208,24 @@ def check(ctx, rep):
         w = Walker(prog, ctx.resolver, fork_returns=True, symbols={"self.selector": "SEL"},
                    inline=lambda fn, t, d: False)
         acc = [path_constraints(p, {"self.selector"}) for p in w.run(sec, url) if p.kind == "return" and truth(p.value) is not False]
+        def by_evaluation(sel):
+            """the filter evaluated on one selector: True / False, or None when the walker cannot follow it"""
+            facts = {"self.selector": Const(sel)}
+            we = Walker(prog, ctx.resolver, exact_loops=True, unroll=8, assumptions=dict(facts), max_paths=4000,
+                        inline=lambda fn, t, d: d < 3 and (t.bound_cls is not None or (fn.cls is None and fn.module.name.startswith("pygopherd."))))
+            try:
+                outs = {truth(p.value) if p.kind == "return" and p.value is not None else None for p in we.run(sec, url, facts=dict(facts))}
+            except Exception:
+                return None
+            return next(iter(outs)) if len(outs) == 1 else None
+
+        clean_ok = by_evaluation("URL:http://x.example/a?b=c")
         for ch, nm in (('"', "double quote"), ("\n", "LF"), ("\r", "CR"), ("\t", "TAB"), ("\0", "NUL")):
+            verdicts = [by_evaluation("URL:http://x.example/a" + ch + "b"), by_evaluation("/URL:http://x.example/" + ch)] if clean_ok is True else [None]
+            if all(v is not None for v in verdicts):
+                rep.add("R13c", f"redirect filter rejects {nm}", not any(verdicts), ctx.where(sec),
+                        f"a selector containing {nm} can reach the redirect page" if any(verdicts) else "", key=f"R13c|{nm}")
+                continue
             bad = [cs for cs in acc if accepts(cs, "x" + ch + "y")]
             rep.add("R13c", f"redirect filter rejects {nm}", bool(acc) and not bad, ctx.where(sec),
                     f"a selector containing {nm} can reach the redirect page" if bad or not acc else "", key=f"R13c|{nm}")
